@@ -63,12 +63,12 @@ Definition op_allowed {K} (kd : kind) (o : op K) : bool :=
   | _ => true
   end.
 
-(* value stored by an insertion of a new key: HashMap stores the argument, HashSet has no value
-   (0 in the observation), PoolMap default-constructs the value (the harness' value type
-   default-constructs to this number) *)
+(* value stored by an insertion of a new key: HashMap stores the argument; HashSet has no value
+   (the histories carry 0 there; the payload is never inspected for a set); PoolMap
+   default-constructs the value (the harness' value type default-constructs to this number) *)
 Definition pool_default : Z := 77.
 Definition ins_value (kd : kind) (v : Z) : Z :=
-  match kd with KMap => v | KSet => 0 | KPool => pool_default end.
+  match kd with KPool => pool_default | _ => v end.
 
 Definition default_capacity : Z := 500.
 
